@@ -5,4 +5,9 @@ cd "$(dirname "$0")"
 export CARGO_NET_OFFLINE=true
 mkdir -p evidence replays work
 ( cd harness && cargo build --release -p lsv )
+# C20 matrix binaries (cached; the check rebuilds them incrementally)
+( cd harness && mkdir -p target-c20 && for cfg in "default-relnoassert|hooks ls-std|relnoassert" "nodefault-relnoassert|hooks|relnoassert" "all-relnoassert|hooks ls-std ls-serde ls-arbitrary|relnoassert" "default-devplain|hooks ls-std|devplain" "nohooks-relnoassert|ls-std|relnoassert" "nohooks-devplain|ls-std|devplain"; do
+    name="${cfg%%|*}"; rest="${cfg#*|}"; feats="${rest%%|*}"; prof="${rest#*|}"
+    cargo build -q -p lsv --no-default-features --features "$feats" --profile "$prof" --target-dir "target-c20/$name" &
+  done; wait )
 echo "setup done"
